@@ -216,7 +216,55 @@ def SomeE(e):
 
 
 def SetSingle(e):
-    return Wrap('ascent::lattice::set::Set::singleton((%s) as u8)', e, lambda v: frozenset([v]))
+    return Wrap('ascent::lattice::set::Set::singleton((%s) as u8)', e, lambda v: frozenset([v % 256]))
+
+
+def BSetSingle(n, e):
+    return Wrap('ascent::lattice::bounded_set::BoundedSet::<%d, u8>::singleton((%%s) as u8)' % n, e, lambda v: frozenset([v % 256]))
+
+
+def ConstOf(e):
+    return Wrap('ascent::lattice::constant_propagation::ConstPropagation::Constant((%s) as u8)', e, lambda v: ('C', v % 256))
+
+
+def OptMapSatInc(e, cap):
+    return Wrap('%%s.map(|t| std::cmp::min(t + 1, %d))' % cap, e, lambda v: None if v is None else (min(v[0] + 1, cap),))
+
+
+def OptIsSome(e):
+    return Wrap('%s.is_some()', e, lambda v: v is not None)
+
+
+def OptGe(e, c):
+    return Wrap('(%%s >= Some(%di32))' % c, e, lambda v: v is not None and v[0] >= c)
+
+
+def SetContains(e, c):
+    return Wrap('%%s.contains(&%du8)' % c, e, lambda v: v == 'TOP' or c in v)
+
+
+def IsTop(e):
+    return Wrap('(%s == ascent::lattice::constant_propagation::ConstPropagation::Top)', e, lambda v: v == 'Top')
+
+
+class TupE(Expr):
+    def __init__(self, es):
+        self.es = es
+
+    def rs(self, sc=None):
+        return '(%s)' % ', '.join(e.rs(sc) for e in self.es)
+
+    def ev(self, env):
+        return tuple(e.ev(env) for e in self.es)
+
+    def vars(self):
+        s = set()
+        for e in self.es:
+            s |= e.vars()
+        return s
+
+    def ren(self, m):
+        return TupE([e.ren(m) for e in self.es])
 
 
 def Cast(e, ty):
